@@ -87,6 +87,32 @@ func buildFile() []byte {
 	return fileBytes
 }
 
+var encOnce sync.Once
+var encBytes []byte
+var encWant []string
+
+// buildEncryptedFile writes an RC4-40 encrypted file (PDF 1.3 with a user
+// password) holding 24 string objects; short keys are where per-object key
+// derivation is most likely to share buffers.
+func buildEncryptedFile() ([]byte, []string) {
+	encOnce.Do(func() {
+		var buf bytes.Buffer
+		w, err := pdf.NewWriter(&buf, pdf.V1_3, &pdf.WriterOptions{UserPassword: "secret", UserPermissions: pdf.PermAll})
+		must(err)
+		pages := w.Alloc()
+		must(w.Put(pages, pdf.Dict{"Type": pdf.Name("Pages"), "Kids": pdf.Array{}, "Count": pdf.Integer(0)}))
+		w.GetMeta().Catalog.Pages = pages
+		for i := 0; i < 24; i++ {
+			txt := fmt.Sprintf("the content of string object number %d", i)
+			must(w.Put(pdf.NewReference(uint32(50+i), 0), pdf.Dict{"S": pdf.String(txt)}))
+			encWant = append(encWant, txt)
+		}
+		must(w.Close())
+		encBytes = buf.Bytes()
+	})
+	return encBytes, encWant
+}
+
 func must(err error) {
 	if err != nil {
 		panic(err)
@@ -525,6 +551,78 @@ func scenarios() []*scenario {
 				}})
 		}
 	}
+
+	// S4t: exclusive decodes of ONE reference under TWO result types
+	add(&scenario{name: "S4t-exclusive-two-types", threads: 3, boundQuick: 2, boundThorough: -1,
+		bodies: func(fx *fixture) []func() {
+			asNode := func(tid int) func() { return exclusiveCall(fx, tid, refX, "X", fx.decodeNode("X")) }
+			asOther := func() {
+				guard(fx, 1, "DecodeExclusive[other](X)", func() (any, error) {
+					v, err := pdf.DecodeExclusive(fx.c, refX, func(c pdf.Cursor, obj pdf.Object, d bool) (*other, error) {
+						fx.enter("X-other")
+						fx.yield("in-decode-other")
+						fx.leave("X-other", true)
+						return &other{id: fx.id.Add(1)}, nil
+					})
+					if err == nil && v == nil {
+						return nil, errors.New("DecodeExclusive returned (nil, nil) although its decode function returns a value")
+					}
+					return v, err
+				})
+			}
+			return []func(){asNode(0), asOther, asNode(2)}
+		},
+		after: func(fx *fixture) *failure {
+			if f := first(noErrors(fx), sameValue(fx)); f != nil {
+				return f
+			}
+			if fx.started["X"] != 1 || fx.started["X-other"] != 1 {
+				return &failure{"exclusive-per-type-count", fmt.Sprintf("decode functions ran %d (node) and %d (other) times, want once each", fx.started["X"], fx.started["X-other"])}
+			}
+			return nil
+		}})
+
+	// S10: concurrent Get on an encrypted file (per-object key derivation)
+	add(&scenario{name: "S10-encrypted-gets", threads: 3, boundQuick: 1, boundThorough: 2,
+		bodies: func(fx *fixture) []func() {
+			data, want := buildEncryptedFile()
+			er, err := pdf.NewReader(bytes.NewReader(data), int64(len(data)), &pdf.ReaderOptions{Password: "secret"})
+			must(err)
+			get := func(tid, from int) func() {
+				return func() {
+					for round := 0; round < 2; round++ {
+						for i := from; i < len(want); i += 3 {
+							i := i
+							guard(fx, tid, fmt.Sprintf("Get(enc %d)", i), func() (any, error) {
+								o, err := er.Get(pdf.NewReference(uint32(50+i), 0), true)
+								if err != nil {
+									return nil, err
+								}
+								d, _ := o.(pdf.Dict)
+								sv, _ := d["S"].(pdf.String)
+								if string(sv) != want[i] {
+									return nil, fmt.Errorf("object %d decrypts to %q", 50+i, sv)
+								}
+								return "ok", nil
+							})
+							fx.yield("between-gets")
+						}
+					}
+				}
+			}
+			return []func(){get(0, 0), get(1, 1), get(2, 2)}
+		},
+		after: func(fx *fixture) *failure {
+			for _, c := range fx.calls {
+				if c.panic != nil {
+					return &failure{"panic:encrypted-get", fmt.Sprint(c.panic)}
+				}
+				if c.err != nil {
+					return &failure{"encrypted-get-differs", fmt.Sprintf("thread %d: %s: %v; alone every object decrypts to what was written", c.thread, c.what, c.err)}
+				}
+			}
+			return nil
+		}})
 
 	// S5: exclusive and plain decodes of one reference
 	add(&scenario{name: "S5-exclusive+plain", threads: 3, boundQuick: 2, boundThorough: -1,
